@@ -201,6 +201,7 @@ MCInit == Init /\ hist = <<>>
 \* the address of a registration is fixed by its position in the history (a refresh therefore
 \* always brings a new address when Addrs has two elements) -- keeps the alphabet small
 MCNext == \E a \in Acts : /\ (a.op \in {"add", "reg"} => a.a = Len(hist) % Cardinality(Addrs))
+                          /\ (a.op = "reg" /\ a.p = Self => \A y \in RegTtls : a.x >= y)   \* one way of registering oneself is enough
                           /\ Do(a) /\ hist' = Append(hist, a)
 MCSpec == MCInit /\ [][MCNext]_vars
 View   == <<now, bk, loc, prov, reg, obs>>
